@@ -1541,4 +1541,71 @@ Proof.
       * intros j Hin. rewrite Hc2 in Hin. destruct Hin as [<-|[]].
         split; [intros m0 q [Y|Y]; discriminate Y|split; [intros m0 q Y; discriminate Y|intros m0 q y Y; discriminate Y]].
       * intros [].
+  - (* CPDrop *)
+    assert (Sm1 : f14_same m m1) by (apply m14r_fplain_step; exact Logic.I).
+    destruct Sm1 as [M1 M2 M3 M4].
+    assert (NoLate : ~ is_late m1 t).
+    { intro L. unfold is_late in L. rewrite M4 in L. destruct (f_late_cur _ _ _ R t L) as [c1 [E1 _]]. rewrite Hcu0 in E1. discriminate E1. }
+    assert (Mc1 : mcont s1 = mcont s0).
+    { unfold mcont. destruct (Nat.eq_dec main t) as [Y|Y]; [rewrite Y, Hc1, Hc; reflexivity|]. replace (thr s1 main) with (thr s0 main); [reflexivity|]. unfold s1. cbn -[Nat.eqb]. unfold updN, th. destruct (Nat.eqb_spec main t); [contradiction|reflexivity]. }
+    destruct (negb (is_main t) || negb (phandle (pps s1 p0))) eqn:Eg; inversion H; subst st2 ev0 done; clear H.
+    + apply (f_idle (FDropBad t p0) s0 s1 m m1 t (CPDrop p0) R).
+      * reflexivity.
+      * intros u Hu. unfold s1. thr_simpl.
+      * exact Hcu1.
+      * unfold s1. thr_simpl.
+      * intro q. repeat split; auto.
+      * exact M2.
+      * exact M3.
+      * intros u _. rewrite M4. reflexivity.
+      * intros u q y Y. discriminate Y.
+      * intros u q Y. inversion Y; subst u q. auto.
+      * intros q Hq. unfold dps. rewrite M1, Mc1. destruct (f_noex _ _ _ R q Hq) as [A [_ [_ [_ [_ [_ B]]]]]]. auto.
+      * intros u W. cbn zeta. unfold dps. rewrite M1, Mc1. pose proof (f_ps _ _ _ R u W) as L. cbn zeta in L. unfold dps in L. rewrite L.
+        destruct (Nat.eq_dec u t) as [->|Hu]; [|replace (thr s1 u) with (thr s0 u) by (unfold s1; thr_simpl); reflexivity].
+        unfold rtransit. rewrite Hc1, Hc, Hcu1, Hcu0. reflexivity.
+      * intros _ L. exfalso. exact (NoLate L).
+      * intros _ L. exfalso. exact (NoLate L).
+      * intros m0 q y Hin. rewrite Hc1 in Hin. destruct Hin.
+      * intros q y Y. discriminate Y.
+      * intros q Y Np. exfalso. inversion Y; subst q. apply Np. reflexivity.
+      * intros m0 q Hin. rewrite Hc1 in Hin. destruct Hin.
+      * intro L. exfalso. exact (NoLate L).
+      * intros m0 v Hin. rewrite Hc1 in Hin. destruct Hin.
+      * intros j Hin. rewrite Hc1 in Hin. destruct Hin.
+      * intros [].
+    + apply orb_false_iff in Eg. destruct Eg as [Em Eh]. apply negb_false_iff in Em, Eh. unfold is_main in Em. apply Nat.eqb_eq in Em. subst t.
+      assert (Hh : phandle (pps s0 p0) = true) by exact Eh.
+      assert (Ex : pexists (pps s0 p0) = true).
+      { destruct (pexists (pps s0 p0)) eqn:Ee; [reflexivity|]. destruct (f_noex _ _ _ R p0 Ee) as [_ [_ [_ [_ [_ [Z0 _]]]]]]. rewrite Z0 in Hh. discriminate Hh. }
+      assert (Mc0 : mcont s0 = []) by exact Hc.
+      match goal with |- FRel FNone ?S' _ => set (st2 := S') end.
+      assert (Hc2 : tcont (thr st2 main) = [ILock (MPq p0) (LPqCancelSet p0)]) by (unfold st2, s1; own).
+      assert (Mc2 : mcont st2 = [ILock (MPq p0) (LPqCancelSet p0)]) by exact Hc2.
+      apply (f_idle FNone s0 st2 m m1 main (CPDrop p0) R).
+      * reflexivity.
+      * intros u Hu. unfold st2, s1. symmetry. oth Hu.
+      * unfold st2, s1. own.
+      * unfold st2, s1. own.
+      * intro q. unfold st2, s1. cbn. unfold updZ. destruct (Z.eqb_spec q p0) as [->|]; cbn; repeat split; auto; intro Y; discriminate Y.
+      * exact M2.
+      * exact M3.
+      * intros u _. rewrite M4. reflexivity.
+      * intros u q y Y. discriminate Y.
+      * intros u q Y. discriminate Y.
+      * intros q Hq. unfold dps. rewrite M1, Mc2. destruct (f_noex _ _ _ R q Hq) as [A _]. split; [exact A|reflexivity].
+      * intros u W. cbn zeta. unfold dps. rewrite M1, Mc2. pose proof (f_ps _ _ _ R u W) as L. cbn zeta in L. unfold dps in L. rewrite L, Mc0.
+        assert (Hu : u <> main) by (intro Y; subst u; exact (main_not_wkr s0 X W)).
+        replace (thr st2 u) with (thr s0 u) by (unfold st2, s1; oth Hu). reflexivity.
+      * intros _ L. exfalso. exact (NoLate L).
+      * intros _ L. exfalso. exact (NoLate L).
+      * intros m0 q y Hin. rewrite Hc2 in Hin. destruct Hin as [Y|[]]. discriminate Y.
+      * intros q y Y. discriminate Y.
+      * intros q Y _. inversion Y; subst q. left. exists (MPq p0). rewrite Hc2. left. reflexivity.
+      * intros m0 q Hin. rewrite Hc2 in Hin. destruct Hin as [Y|[]]. inversion Y; subst. auto.
+      * intro L. exfalso. exact (NoLate L).
+      * intros m0 v Hin. rewrite Hc2 in Hin. destruct Hin as [Y|[]]. discriminate Y.
+      * intros j Hin. rewrite Hc2 in Hin. destruct Hin as [<-|[]].
+        split; [intros m0 q [Y|Y]; discriminate Y|split; [intros m0 q Y; discriminate Y|intros m0 q y Y; discriminate Y]].
+      * intros [].
   - Abort.
